@@ -27,7 +27,7 @@ cd /repo && git worktree remove --force $WT
 SR=/tmp/seedrepo-$NAME
 cd /repo && git worktree add -q $SR HEAD && cd $SR && git apply $SEED/patch.diff
 cd /verif
-export VERIF_REPO=$SR VERIF_BUILD=/verif/.build-seed VERIF_EVIDENCE=/verif/seeded/$NAME VERIF_REPLAYS=/verif/seeded/$NAME/replays
+export VERIF_REPO=$SR VERIF_BUILD=/tmp/verif-build-seed VERIF_EVIDENCE=/verif/seeded/$NAME VERIF_REPLAYS=/verif/seeded/$NAME/replays
 if [ -n "$ONLY" ]; then ./check $PROP --tier thorough --only "$ONLY" > /verif/seeded/$NAME/check.log 2>&1; else ./check $PROP > /verif/seeded/$NAME/check.log 2>&1; fi
 echo "check_rc=$? $(grep -c '^VIOLATION' /verif/seeded/$NAME/check.log) violation lines" >> $LOG
 mv /verif/seeded/$NAME/$PROP.json /verif/seeded/$NAME/evidence_with_change.json 2>/dev/null
